@@ -185,6 +185,15 @@ func reuseReceiver(a, b *mpkt, order string) {
 	// what a caller keeps of the first decode: the section slices (and so the records and
 	// their RDATA) as they were handed out
 	kept := *g
+	if order == "a-refused-b" {
+		// a datagram cut short in between: refused, and the next decode is unaffected by it
+		for _, cut := range []int{len(wb) / 2, len(wb) - 1, 12} {
+			if cut > 0 && cut < len(wb) {
+				mon.Guard(func() { g.Unmarshal(append([]byte(nil), wb[:cut]...)) })
+				r.Count("refused_decodes_into_a_used_receiver", 1)
+			}
+		}
+	}
 	var n int
 	p, v, st := mon.Guard(func() { n, err = g.Unmarshal(append([]byte(nil), wb...)) })
 	r.Eval(1)
@@ -206,7 +215,11 @@ func reuseReceiver(a, b *mpkt, order string) {
 		return
 	}
 	view := *g
-	if len(a.Q) > 0 && len(g.Questions) == len(a.Q)+len(b.Q) {
+	if order == "a-refused-b" && len(g.Questions) > len(b.Q) {
+		// questions of earlier (also of refused) decodes may sit in front: the tail is judged
+		view.Questions = g.Questions[len(g.Questions)-len(b.Q):]
+		r.Count("reuse_questions_accumulated", 1)
+	} else if len(a.Q) > 0 && len(g.Questions) == len(a.Q)+len(b.Q) {
 		pre := nbtns.NBTNSPacket{Header: g.Header, Questions: g.Questions[:len(a.Q)], Answers: g.Answers, Authority: g.Authority, Additional: g.Additional}
 		pre.Header.Questions = uint16(len(a.Q))
 		ma := &Pkt{ID: b.ID, Flags: b.Flags, Q: a.Q, An: b.An, Ns: b.Ns, Ar: b.Ar}
@@ -404,6 +417,9 @@ func carryOver(bp []*mpkt) {
 		a, b := pool[i], pool[(i+1)%len(pool)]
 		reuseReceiver(a, b, "a-then-b")
 		reuseReceiver(b, a, "b-then-a")
+		if i%4 == 0 {
+			reuseReceiver(a, b, "a-refused-b")
+		}
 		staleAfterChange(a, b)
 		writeThrough(a, i%2 == 0)
 	}
